@@ -20,6 +20,7 @@ import (
 	"os"
 	"path/filepath"
 	"runtime"
+	"sort"
 	"strings"
 	"sync"
 	"time"
@@ -27,12 +28,13 @@ import (
 	"github.com/logrange/logrange/api"
 	"github.com/logrange/logrange/pkg/pipe"
 	"github.com/logrange/logrange/pkg/utils/verifhook"
+	"github.com/logrange/range/pkg/records/journal"
 	"verifharness/internal/lrsrv"
 	"verifharness/internal/vh"
 )
 
 type concCase struct {
-	Kind    string `json:"kind"`              // busystop | ack
+	Kind    string `json:"kind"`              // busystop | ack | possave
 	N       int    `json:"n,omitempty"`       // busystop: events in the parked copy; ack: concurrent creates
 	Before  int    `json:"before,omitempty"`  // busystop: events copied and saved before the parked copy
 	Deletes bool   `json:"deletes,omitempty"` // ack: the second wave deletes the pipes again
@@ -300,8 +302,132 @@ func runAck(c scase, sec string, sect *vh.Section) {
 	}
 }
 
+// possave: several source partitions of one pipe are written concurrently, so that its workers finish copies — and save the
+// whole position map — at the same time. At quiescence the positions FILE must say what the memory says (saveState writes the
+// file inside the critical section that took the snapshot: fact positionsFileWrittenUnderPipeLock; written after the unlock,
+// an older snapshot can land last), and after a graceful restart no source event is in the pipe's partition twice.
+// Probabilistic for that defect (no hook between snapshot and write); the regenerated fact is the deterministic check.
+func runPosSave(c scase, sec string, sect *vh.Section) {
+	cc := c.Conc
+	fail := func(kind, what, impl, spec string) {
+		res.SpecFail(vh.SpecFailure{Section: sec, Kind: kind, Input: c, Impl: impl, Spec: spec, What: what})
+	}
+	dir := lrsrv.NewDir()
+	defer os.RemoveAll(dir)
+	srv, err := startRetry(dir, lrsrv.Opts{MaxChunkSize: 20000})
+	if err != nil {
+		res.Note("%s: %v", sec, err)
+		return
+	}
+	defer func() { srv.Stop() }()
+	// only the LAST saves of a pipe decide what its file holds at quiescence: several independent pipes over the same sources
+	// multiply the chances that one of them ends with two workers saving at the same time
+	npipes := cc.N
+	var pnames []string
+	for i := 0; i < npipes; i++ {
+		n := fmt.Sprintf("qp%d", i)
+		if _, err := srv.Exec("create pipe " + n + " from g=a"); err != nil {
+			res.Note("%s: create pipe: %v", sec, err)
+			return
+		}
+		pnames = append(pnames, n)
+	}
+	nparts, rounds := 6, 3
+	total := 0
+	var tmu sync.Mutex
+	for r := 0; r < rounds; r++ {
+		var wg sync.WaitGroup
+		for p := 0; p < nparts; p++ {
+			wg.Add(1)
+			go func(p int) {
+				defer wg.Done()
+				var a []*api.LogEvent
+				for i := 0; i < 3; i++ {
+					a = append(a, &api.LogEvent{Timestamp: int64(1000 + r*10 + i), Message: fmt.Sprintf("q-%d-%d-%d", p, r, i)})
+				}
+				var wr api.WriteResult
+				err := srv.Client.Write(context.Background(), fmt.Sprintf("g=a,p=%d", p), "", a, &wr)
+				if err == nil && wr.Err == nil {
+					tmu.Lock()
+					total += len(a)
+					tmu.Unlock()
+				}
+			}(p)
+		}
+		wg.Wait()
+	}
+	dest := func(n string) string { return "select from {logrange.pipe=" + n + "}" }
+	if !waitFor(15*time.Second, func() bool {
+		for _, n := range pnames {
+			if got, err := queryAll(srv, dest(n)); err != nil || len(got) < total {
+				return false
+			}
+		}
+		return srv.Pipes.VerifC07CaughtUp()
+	}) {
+		res.Note("%s: the pipe did not catch up", sec)
+		return
+	}
+	time.Sleep(20 * time.Millisecond)
+	type ppd struct{ Pos journal.Pos }
+	var stale []string
+	for _, n := range pnames {
+		mem, ok := srv.Pipes.VerifC07Positions(n)
+		b, ferr := ioutil.ReadFile(pipe.VerifC07PipeFileName(filepath.Join(dir, "pipes"), n))
+		file := map[string]*ppd{}
+		if !ok || ferr != nil || json.Unmarshal(b, &file) != nil {
+			continue
+		}
+		for src, pos := range mem {
+			if f, ok := file[src]; !ok || f.Pos != pos {
+				stale = append(stale, fmt.Sprintf("pipe %s source %s: memory %v file %v", n, src, pos, file[src]))
+			}
+		}
+		res.Dist(sect, "possave:file-compared-with-memory-at-quiescence")
+	}
+	if len(stale) > 0 {
+		sort.Strings(stale)
+		fail("positions-file-stale", "at quiescence the positions file of a pipe does not hold the positions the pipe has in memory: an older snapshot was written last", strings.Join(stale, "; "), "file = memory")
+	}
+	srv.Stop()
+	img := dir + "-img"
+	defer os.RemoveAll(img)
+	if copyDir(dir, img) != nil {
+		return
+	}
+	srv2, err := startRetry(img, lrsrv.Opts{MaxChunkSize: 20000})
+	if err != nil {
+		fail("refuse-to-start", "the server does not start after a graceful stop", err.Error(), "starts")
+		return
+	}
+	defer srv2.Stop()
+	waitFor(5*time.Second, func() bool { return srv2.Pipes.VerifC07CaughtUp() })
+	time.Sleep(30 * time.Millisecond)
+	for _, n := range pnames {
+		got, err := queryAll(srv2, dest(n))
+		if err != nil {
+			continue
+		}
+		seen := map[string]int{}
+		dups := 0
+		for _, e := range got {
+			seen[e.Msg]++
+			if seen[e.Msg] == 2 {
+				dups++
+			}
+		}
+		if dups > 0 {
+			fail("pipe-progress-lost", fmt.Sprintf("after a graceful restart of a quiescent server %d source events are in the partition of pipe %s twice: the positions file was older than the pipe's progress", dups, n), evsStr(got), fmt.Sprintf("%d events, each once", total))
+		}
+	}
+}
+
 func concCases(rng *vh.Rng) []scase {
 	cs := []scase{
+		{Conc: &concCase{Kind: "possave", N: 8}},
+		{Conc: &concCase{Kind: "possave", N: 12}},
+		{Conc: &concCase{Kind: "possave", N: 8, Before: 1}},
+		{Conc: &concCase{Kind: "possave", N: 12, Before: 2}},
 		{Conc: &concCase{Kind: "busystop", N: 5, Before: 3}},
 		{Conc: &concCase{Kind: "busystop", N: 40, Before: 0}},
 		{Conc: &concCase{Kind: "ack", N: 3}},
@@ -332,5 +458,7 @@ func runConc(c scase, sec string, sect *vh.Section) {
 		runBusyStop(c, sec, sect)
 	case "ack":
 		runAck(c, sec, sect)
+	case "possave":
+		runPosSave(c, sec, sect)
 	}
 }
